@@ -371,6 +371,42 @@ func (m *Machine) ActAck(t *rapid.T) {
 	}
 }
 
+// ActAckAgain delivers a further acknowledgement message for a packet that was received (acknowledged on the
+// source or not): the genuine ack once more, or one whose code is flipped (forged error / forged success), with
+// the genuine proof. The action itself judges nothing: the model is only updated when the message is the genuine
+// FIRST ack (handled by ActAck); any effect of an accepted further ack shows up in the ledger and balance checks.
+func (m *Machine) ActAckAgain(t *rapid.T) {
+	w := m.W
+	var cands []*Pkt
+	for _, p := range m.ReceivedPkts() {
+		if p.Acked && len(p.AckBz) > 0 && len(w.ProofHeightsFor(p.SrcIdx, p.DstIdx, p.RecvAt)) > 0 {
+			cands = append(cands, p)
+		}
+	}
+	if len(cands) == 0 {
+		t.Skip("no acknowledged packet")
+	}
+	p := cands[rapid.IntRange(0, len(cands)-1).Draw(t, "pkt")]
+	hs := w.ProofHeightsFor(p.SrcIdx, p.DstIdx, p.RecvAt)
+	rel := w.Rels[rapid.IntRange(0, 1).Draw(t, "rel")]
+	ackBz := p.AckBz
+	kind := rapid.SampledFrom([]string{"same", "flipped-code", "flipped-code"}).Draw(t, "againKind")
+	if kind == "flipped-code" {
+		a := p.Ack
+		if a.Code == 0 {
+			a.Code = 1
+		} else {
+			a.Code = 0
+		}
+		var err error
+		ackBz, err = a.ABIPack()
+		kit.Must(err, "pack ack")
+	}
+	res := w.Chains[p.SrcIdx].Deliver(rel, kit.MsgAck(w.Chains[p.DstIdx], p.Bz, ackBz, hs[len(hs)-1], rel.Acc))
+	m.R.Label(fmt.Sprintf("ack_again_%s_accepted=%v", kind, res.OK()))
+	m.Log("ackAgain", fmt.Sprintf("%s %s", p.T, kind), fmt.Sprintf("ok=%v", res.OK()))
+}
+
 // BaseActions returns the standard action table.
 func (m *Machine) BaseActions() map[string]func(*rapid.T) {
 	wrap := func(f func(*rapid.T)) func(*rapid.T) {
